@@ -3,6 +3,7 @@
 #define VK_MAIN
 #include "../kit/viewprog.hpp"
 #include <boost/multi/array_ref.hpp>
+#include <sys/mman.h>
 using namespace vk;
 
 static GenCfg cfg;
@@ -25,8 +26,9 @@ struct DeathVis {
 			int const pos = int(g->below(D)); bool const below = g->chance(1, 2); int const path = int(g->below(3)); L const far = g->chance(1, 4) ? g->in(2, 40) : 1;
 			std::vector<L> ix(static_cast<std::size_t>(D), 0); for(int d = 0; d < D; ++d) ix[std::size_t(d)] = g->below(m.size[std::size_t(d)]);
 			ix[std::size_t(pos)] = below ? -far : m.size[std::size_t(pos)] + far - 1;
+			bool const wrap = g->chance(1, 6); if(wrap) { ix[std::size_t(pos)] = g->below(m.size[std::size_t(pos)]) + (below ? -1 : 1) * (L(1) << 32) * g->in(1, 2); count("death_probes:index-off-by-a-multiple-of-2^32"); }  // out of range by a multiple of 2^32: congruent to a valid index in 32-bit arithmetic
 			static char const* PN[] = {"brackets", "call", "apply"};
-			std::string const what = std::string(PN[path]) + ":pos" + (pos == 0 ? "0" : (pos == D - 1 ? "last" : "mid")) + (below ? ":below" : ":above");
+			std::string const what = std::string(PN[path]) + ":pos" + (pos == 0 ? "0" : (pos == D - 1 ? "last" : "mid")) + (below ? ":below" : ":above") + (wrap ? ":by-2^32" : "");
 			op(("death:index:" + what).c_str()); std::string err;
 			int rc = fork_run([&] { st().expect_death = true; if(path == 0) sink_v = brk(v, ix); else if(path == 1) sink_v = call_ix(v, ix); else sink_v = apply_ix(v, ix); return 0; }, &err);
 			std::string site; int cl = classify(rc, err, &site); ++probes; count("death_probes:index"); count(std::string("outcome:index:") + (cl == 0 ? "asserted" : cl == 1 ? "survived" : "sanitizer-or-crash-first"));
@@ -75,6 +77,21 @@ template<int D> void assign_probes(Rng& g) {
 	nontrivial();
 }
 
+// ---- valid use of views with more than 2^32 elements in one dimension must NOT be stopped (the block is a lazily committed anonymous mapping; a few pages are touched)
+static void huge_extent_probe(Rng& g) {
+	L const n = (L(1) << 32) + (L(1) << 31) + L(g.below(1000)); std::size_t const total = std::size_t(n) + 4096; describe("huge-extent valid use, n=" + std::to_string(n)); sig_mix("huge-extent"); op("huge-extent:mmap");
+	void* mp = mmap(nullptr, total, PROT_READ | PROT_WRITE, MAP_PRIVATE | MAP_ANONYMOUS | MAP_NORESERVE, -1, 0); if(mp == MAP_FAILED) { count("huge-extent-probe:mapping-refused(skipped)"); return; }
+	char* const p = static_cast<char*>(mp); int const kind = int(g.below(4)); static char const* KN[] = {"1-D index", "2-D leading index", "sliced", "call-range"}; L const i = (L(1) << 32) + L(g.below(1000000));
+	op((std::string("huge-extent:") + KN[kind]).c_str()); std::string err;
+	int rc = fork_run([&] { multi::array_ref<char, 1> big({n}, p); multi::array_ref<char, 2> rows({n / 2, 2}, p);
+		switch(kind) { case 0: big[i] = 'x'; return big[i] == 'x' && p[i] == 'x' ? 0 : 3; case 1: rows[i / 2][1] = 'y'; return p[(i / 2) * 2 + 1] == 'y' ? 0 : 3;
+			case 2: { auto&& s2 = big.sliced(5, i + 1); return (s2.size() == i - 4 && &s2[i - 5] == p + i) ? 0 : 3; } default: { auto&& s3 = rows({1, i / 2 + 1}, 1); return (s3.size() == i / 2 && &s3[i / 2 - 1] == p + (i / 2) * 2 + 1) ? 0 : 3; } } }, &err);
+	std::string site; int cl = classify(rc, err, &site); count("huge-extent-probes"); count(std::string("outcome:huge-extent:") + (cl == 0 ? "asserted" : rc == 0 ? "fine" : "other"));
+	if(cl == 0) violation(std::string("C20:huge-extent:") + KN[kind] + ":valid-use-stopped-by-assertion", "a valid " + std::string(KN[kind]) + " at " + std::to_string(i) + " of a view with " + std::to_string(n) + " elements fired the assertion at " + site, false);
+	else if(rc != 0) violation(std::string("C20:huge-extent:") + KN[kind] + ":wrong", "a valid " + std::string(KN[kind]) + " of a view with more than 2^32 elements designates another element (or crashed): rc=" + std::to_string(rc) + " " + err.substr(0, 160), false);
+	munmap(mp, total); nontrivial(true);
+}
+
 template<int D> void one(Case& c, Prog const& p) {
 	auto exts = make_extensions<D>(p.root); MV m = MV::root(p.root);
 	describe("D=" + std::to_string(D) + " root=" + m.shape() + ":");
@@ -86,6 +103,7 @@ template<int D> void one(Case& c, Prog const& p) {
 int main(int argc, char** argv) {
 	return main_loop(argc, argv, [&](Case& c) {
 		static bool init = false; if(!init) { init = true; auto& a = st().args; for(std::size_t i = 0; i + 1 < a.size(); ++i) { if(a[i] == "--maxext") cfg.max_ext = std::atoi(a[i + 1].c_str()); if(a[i] == "--maxops") cfg.max_ops = std::atoi(a[i + 1].c_str()); } }
+		if(c.k % 40 == 9) { huge_extent_probe(c.rng); return; }
 		if(c.k % 2 == 0) { Prog p = gen_prog(c.rng, cfg);
 			switch(p.root.size()) { case 1: one<1>(c, p); break; case 2: one<2>(c, p); break; case 3: one<3>(c, p); break; default: one<4>(c, p); break; } }
 		else { describe("assign-probe"); switch(c.rng.below(3)) { case 0: assign_probes<1>(c.rng); break; case 1: assign_probes<2>(c.rng); break; default: assign_probes<3>(c.rng); break; } }
